@@ -9,6 +9,7 @@ Line-protocol driver for the C20 model (`lake build c20drv`). All numbers are de
   apply N <num> <baseTx> <oldest> <classes>
   advance <oldest>                                   -> true | false
   snap <b>                                           -> <length> <entries newest first, '|' separated> # <numbers oldest first>
+  snapn <b>                                          -> <length> # <numbers oldest first>
   tx <b> <hash>      (on SnapshotForBlock(b))        -> notfound | <hash>.<tag>
   rc <b> <hash>                                      -> notfound | <hash>.<tag>.<events>@<block>
   univ <addrs> <slots> <classhashes>                 -> ok          (comma lists; reads are answered over this universe)
@@ -141,7 +142,7 @@ def showReads (s : DState) (p : PState) : String :=
   let ca := s.chs.map fun h => s!"{h}={showOpt (p.casm h)}"
   let c2 := s.chs.map fun h => s!"{h}={showOpt (p.casmV2 h)}"
   s!"ch[{",".intercalate ch}] no[{",".intercalate no}] st[{",".intercalate st}] " ++
-  s!"cl[{",".intercalate cl}] ca[{",".intercalate ca}] c2[{",".intercalate c2}] bn={p.blockNumber}"
+  s!"cl[{",".intercalate cl}] ca[{",".intercalate ca}] c2[{",".intercalate c2}]"
 
 /-- `StateAtBlockNumber(n)`; the harness registers every base it can be asked for -/
 def baseAt (s : DState) (n : Nat) : Option Base := (AMap.get s.bases n).map Tables.toBase
@@ -181,6 +182,12 @@ def step (s : DState) (line : String) : DState × String :=
   | ["snap", b] =>
     match nat? b with
     | some b => (s, showView (snapshotFor s.store b))
+    | none => (s, "bad-op")
+  | ["snapn", b] =>
+    match nat? b with
+    | some b =>
+      let v := snapshotFor s.store b
+      (s, s!"{v.length} # {",".intercalate (v.oldestFirst.map fun e => toString e.number)}")
     | none => (s, "bad-op")
   | ["tx", b, h] =>
     match nat? b, nat? h with
